@@ -528,4 +528,13 @@ example : CaseOK (nan, fin 1) ∧ CaseOK (fin 2, fin 1) := ⟨Or.inl (Or.inl rfl
 
 end means
 
+/-! ## 8. Outside the domain: an infinite forecast (notes/C11.md N1) -/
+
+/-- `zero_array = fcst * 0.0` is NaN for fcst = +∞, so the quantile (and Huber) kernels never penalise an infinite
+    over-forecast: obs = 1 ≤ θ = 3/2 < fcst = +∞ scores 0 instead of 1 − α (the expectile kernel gives (1−α)(θ−obs)) -/
+theorem quantile_inf_forecast_counterexample :
+    (Model.Murphy.cell .quantile (Fl.fin (1/4)) Fl.nan Fl.pinf (Fl.fin 1) (Fl.fin (3/2))).total = Fl.fin 0 ∧
+    (Model.Murphy.cell .expectile (Fl.fin (1/4)) Fl.nan Fl.pinf (Fl.fin 1) (Fl.fin (3/2))).total = Fl.fin (3/8) := by
+  constructor <;> decide +kernel
+
 end SV.Props.C11
